@@ -146,6 +146,35 @@ theorem C02_eq_refl (t : Tc) (wf : WF t) : t.beq t = true := by
   obtain ⟨wh, ws, _⟩ := wf
   simp [Tc.beq, pyEq, C01.C01_pack_exact t.sph wh, sec_pack t.sec ws]
 
+/-- **`==` is exactly equality of the compared fields**: for in-range telecommands `a == b` holds
+    iff space packet header, secondary header and application data are all equal, i.e. iff the two
+    objects are equal field by field (so `==` distinguishes any two different packets; together
+    with `C02_roundtrip` this is "unpack(pack(x)) == x and nothing else is") -/
+theorem C02_eq_iff (a b : Tc) (ha : C01.WF a.sph) (hb : C01.WF b.sph) (sa : WFSec a.sec) (sb : WFSec b.sec) :
+    a.beq b = true ↔ a = b := by
+  constructor
+  · intro h
+    simp only [Tc.beq, pyEq, C01.C01_pack_exact a.sph ha, C01.C01_pack_exact b.sph hb, sec_pack a.sec sa,
+      sec_pack b.sec sb, Bool.and_eq_true, decide_eq_true_eq] at h
+    obtain ⟨⟨h1, h2⟩, h3⟩ := h
+    have e1 : a.sph = b.sph := by
+      have u1 := C01.C01_unpack_pack a.sph ha []
+      have u2 := C01.C01_unpack_pack b.sph hb []
+      rw [h1, u2] at u1
+      exact (Except.ok.inj u1).symm
+    have e2 : a.sec = b.sec := by
+      have u1 := sec_unpack_spec a.sec sa []
+      have u2 := sec_unpack_spec b.sec sb []
+      rw [h2, u2] at u1
+      exact (Except.ok.inj u1).symm
+    obtain ⟨x1, x2, x3⟩ := a
+    obtain ⟨y1, y2, y3⟩ := b
+    simp only at e1 e2 h3
+    subst e1 e2 h3
+    rfl
+  · rintro rfl
+    simp [Tc.beq, pyEq, C01.C01_pack_exact a.sph ha, sec_pack a.sec sa]
+
 /-- what a successful decode guarantees: the declared length has room for secondary header and
     CRC, lies inside the buffer, the CRC over exactly the declared packet is zero, and the
     result is determined by the first `packetLen` octets only (never by neighbouring octets). -/
